@@ -275,3 +275,76 @@ Proof.
   destruct (render_output_compositional g ld fuel n c b b eq_refl) as (_ & _ & _ & _ & d & D & _).
   exists d. exact D.
 Qed.
+
+(** * render ... for: the output is the concatenation of independent item renders *)
+
+(** what item [it] (at index [i]) writes when it is rendered ALONE, into an empty
+    buffer, from the fresh isolated copy [cc] *)
+Definition item_alone g rec body key len nsp cc it i : rstate :=
+  let nsx := dict_set key it (dict_set s_forloop (VForLoop key len i VUndef) nsp) in
+  partial_template g rec body (set_globals cc (nsx :: root_globals cc)) empty_buf true.
+
+Fixpoint items_text g rec body key len nsp (its : list val) (i : Z) cc : str :=
+  match its with
+  | [] => []
+  | it :: its' =>
+      text (bf (item_alone g rec body key len nsp cc it i))
+      ++ items_text g rec body key len nsp its' (i + 1)%Z cc
+  end.
+
+Fixpoint items_done g rec body key len nsp (its : list val) (i : Z) cc : Prop :=
+  match its with
+  | [] => True
+  | it :: its' =>
+      st (item_alone g rec body key len nsp cc it i) = SDone
+      /\ items_done g rec body key len nsp its' (i + 1)%Z cc
+  end.
+
+Lemma render_iter_concat g rec
+  (Hrec : forall x c b1 b2, null b1 = null b2 -> brel b1 b2 (rec x c b1) (rec x c b2))
+  body key len nsp its : forall i cc b,
+  null b = false ->
+  items_done g rec body key len nsp its i cc ->
+  let r := render_iter g rec body key len nsp its i cc b in
+  st r = SDone /\ cx r = cc /\ null (bf r) = false /\
+  text (bf r) = text b ++ items_text g rec body key len nsp its i cc.
+Proof.
+  induction its as [|it its IH]; intros i cc b Hn Hd; cbn [render_iter items_text items_done] in *.
+  - cbn. rewrite app_nil_r. auto.
+  - destruct Hd as [Hd1 Hd2]. unfold item_alone in *.
+    set (c' := set_globals cc _) in *.
+    pose proof (partial_template_brel g rec Hrec body c' b empty_buf true Hn) as R.
+    destruct R as (S & _ & N1 & _ & d & D1 & D2).
+    cbv zeta. rewrite S, Hd1.
+    assert (Hn' : null (bf (partial_template g rec body c' b true)) = false) by congruence.
+    specialize (IH (i + 1)%Z cc _ Hn' Hd2). cbv zeta in IH.
+    destruct IH as (I1 & I2 & I3 & I4).
+    repeat split; auto.
+    rewrite I4, D1, D2. cbn [text empty_buf app]. rewrite app_assoc. reflexivity.
+Qed.
+
+(** the same with the interpreter itself as the recursive renderer *)
+Theorem render_for_is_concatenation_of_isolated_items g ld fuel body key len nsp its i cc b :
+  null b = false ->
+  items_done g (render g ld fuel) body key len nsp its i cc ->
+  let r := render_iter g (render g ld fuel) body key len nsp its i cc b in
+  st r = SDone /\ cx r = cc /\
+  text (bf r) = text b ++ items_text g (render g ld fuel) body key len nsp its i cc.
+Proof.
+  intros Hn Hd.
+  destruct (render_iter_concat g (render g ld fuel) (render_output_compositional g ld fuel)
+              body key len nsp its i cc b Hn Hd) as (A & B & _ & D).
+  cbv zeta. auto.
+Qed.
+
+(** the premises are satisfiable and the conclusion is not trivial: the partial
+    `{% increment n %}{{ x }}` over [7; 8] writes "0708" - each item restarts its
+    counter at 0 because it starts from the same fresh copy *)
+Example render_for_concat_example :
+  let g := {| suppress := false; depth_limit := 30 |} in
+  let body := [NIncrement [110]%N; NOutput (EPath [120]%N [])] in
+  let cc := fresh_ctx 30 [] [] in
+  let its := [VInt 7; VInt 8] in
+  items_done g (render g [] 5) body [120]%N 2%Z [] its 0%Z cc /\
+  items_text g (render g [] 5) body [120]%N 2%Z [] its 0%Z cc = [48; 55; 48; 56]%N.
+Proof. vm_compute. repeat split; reflexivity. Qed.
